@@ -24,6 +24,9 @@ func (msgServer).subUnlockedERC20Tokens
     requires pair: tokenPair.Denom == amt.Denom
     modifies bank_bal, bank_supply, auth_accs   // only through the erc20 keeper (ConvertCoin, CallEVM), which is unknown code
     allow frame
+    // sdk.Coins{spendable.Add(evmBalance)} may hold a zero coin (an unsanitised list); its only consumer is SafeSub, which merges and
+    // drops zero entries before looking for negatives - the literal never reaches Empty / Len / IsValid
+    allow coinslit
     // `res.Ret` after the EVM transfer: the erc20 keeper returns a non-nil response with a nil error (not specified here,
     // CallEVM stays unknown code); irrelevant for the conversion bound
     allow nil
